@@ -12,9 +12,9 @@ ok={tc.get('classname')+'::'+tc.get('name') for tc in ET.parse('$WT/junit.xml').
 print(len([b for b in base if b in ok]), len(ok))
 PY
 }
-/venv/bin/python $SRC/demo.py >/dev/null 2>&1; CLEAN_RC=$?
+PYTHONPATH=$WT /venv/bin/python $SRC/demo.py >/dev/null 2>&1; CLEAN_RC=$?
 if git apply $SRC/patch.diff 2>/dev/null; then APPLY=git-apply; elif patch -p1 -s < $SRC/patch.diff; then APPLY=patch-fuzz; else APPLY=FAILED; fi
-/venv/bin/python $SRC/demo.py > $WT/demo.out 2>&1; MUT_RC=$?
+PYTHONPATH=$WT /venv/bin/python $SRC/demo.py > $WT/demo.out 2>&1; MUT_RC=$?
 T=$(run_tests)
 git diff > $WT/current.diff
 echo "$ID$DV apply=$APPLY demo_clean_rc=$CLEAN_RC demo_mutant_rc=$MUT_RC baseline_pass/total_pass=$T files=$(git diff --name-only | tr '\n' ' ')"
